@@ -12,6 +12,7 @@ every restart when `usecheckpoints=True`.
                    trimming; `var_chunks.setdefault(v, {})[iorigin] = block`;
                    the time of the last key read in the FIRST file;
                    `fixij(join_chunks(var_chunks[v]))` for every v
+  var              transform_vars_aurel_to_ET, then list(dict.fromkeys(var)) (a25772a)
   result           data['it'] = all requested iterations (sorted set), one
                    entry in 't' and in every variable column per iteration
                    THAT HAS FILES ("Could not find checkpoint file" otherwise)
@@ -158,15 +159,22 @@ def itStep {α : Type} (toAurel : String → String) (cmax : CMax) (files : List
   | some none => some data                                  -- "Could not find checkpoint file"
   | some (some ta) => some (addIt toAurel var data ta.1 ta.2)
 
-/-- `read_ET_checkpoints(param, var, it=its, rl=rl, restart=r)`; `var` are the
-Einstein Toolkit names (`transform_vars_aurel_to_ET` already applied), `toAurel`
-is `transform_vars_ET_to_aurel`, `files` the checkpoint files of restart `r` -/
-def readCheckpoints {α : Type} (toAurel : String → String) (files : List (CFile α)) (var : List String)
+/-- the body of `read_ET_checkpoints` after the variable list has been prepared -/
+def readCheckpointsCore {α : Type} (toAurel : String → String) (files : List (CFile α)) (var : List String)
     (its : List Nat) (rl : Nat) : Option (Table (Cell α)) :=
   let it := sortedSet its
   match findCmax files it with
   | none => none
   | some cmax =>
     (it.foldlM (itStep toAurel cmax files rl var) [("t", [])]).map fun d => ⟨it, d⟩
+
+/-- `read_ET_checkpoints(param, var, it=its, rl=rl, restart=r)`; `var` are the
+Einstein Toolkit names (`transform_vars_aurel_to_ET` already applied), `toAurel`
+is `transform_vars_ET_to_aurel`, `files` the checkpoint files of restart `r`.
+`var = list(dict.fromkeys(var))` (/repo a25772a): a variable requested twice is
+read once, the first occurrence is kept. -/
+def readCheckpoints {α : Type} (toAurel : String → String) (files : List (CFile α)) (var : List String)
+    (its : List Nat) (rl : Nat) : Option (Table (Cell α)) :=
+  readCheckpointsCore toAurel files var.eraseDups its rl
 
 end AurelVerif.Checkpoint
